@@ -56,6 +56,8 @@ def check(run, project):
     f7(run, project)
     f5(run, project, L)
     f6(run, project)
+    f9(run, project)
+    f8(run, project)
     run.floor("F1", 20)
     run.floor("F2", 6)
 
@@ -635,6 +637,168 @@ def f7(run, project):
                 ok = True
     run.ob("F7", ok, "swtpm scanner: input ending inside a digit pair raises ValueError", "the low-nibble state no longer raises at end of input",
            module=sm, node=sf, func=sf.name, construct="swtpm unpaired digit exit")
+
+
+def _blank_bytes(e):
+    """a bytes value without a visible character: b"", b" ", bytes()"""
+    return (isinstance(e, ast.Constant) and isinstance(e.value, bytes) and not e.value.strip()) or \
+        (isinstance(e, ast.Call) and call_name(e) == "bytes" and not e.args and not e.keywords)
+
+
+def f8(run, project):
+    """the hex scanner in its two-pending-characters form (each character is held as a bytes object; blank = none held /
+    whitespace) as a transition table over the path summaries of one loop iteration:
+      first blank           -> pull one byte into it, nothing emitted, next iteration; input exhausted: end silently
+      first held, 2nd blank -> pull one byte into the second;                          input exhausted: ValueError
+      both held             -> both in the alphabet: emit int(first + second, 16) once, both blank again; else ValueError
+    A scanner written in another form (helpers that skip whitespace, a digit accumulator, a for loop) is not judged by this
+    table (F3 / F7 and the delegation rules still apply); the table says so in the evidence."""
+    from .outcomes import View, label
+    mod = project.module(HEX)
+    fn = mod.function("parse_hex_string")
+    S = paths.Summariser(mod, fn)
+    top = S.paths()
+    body = None
+    for t in top:
+        for lp in t.loops.values():
+            if any(k == "yield" for b in lp for k, _e, _n in b.effects):
+                body = lp
+        if body:
+            break
+    pair = None
+    for b in body or []:
+        for k, e, _n in b.effects:
+            if k == "yield" and isinstance(e, ast.Call) and call_name(e) == "int" and len(e.args) == 2 and isinstance(e.args[0], ast.BinOp) \
+                    and isinstance(e.args[0].op, ast.Add) and all(isinstance(x, ast.Name) for x in (e.args[0].left, e.args[0].right)):
+                pair = (e.args[0].left.id, e.args[0].right.id)
+    atoms = {a for b in body or [] for a in View(b).conds()}
+    if pair is None:   # the emitting statement itself, when the loop was not summarised (e.g. its test folded to false)
+        for y in [y for y in walk_no_nested(fn) if isinstance(y, ast.Yield) and isinstance(y.value, ast.Call) and call_name(y.value) == "int"]:
+            a0 = y.value.args[0] if y.value.args else None
+            if isinstance(a0, ast.BinOp) and isinstance(a0.left, ast.Name) and isinstance(a0.right, ast.Name):
+                pair = (a0.left.id, a0.right.id)
+    inits = {norm(a_.targets[0]) for a_ in fn.body if isinstance(a_, ast.Assign) and isinstance(a_.value, ast.Constant) and isinstance(a_.value.value, bytes)}
+    tested = {f"{v}.strip()" for v in pair or ()} & {a for b in body or [] for a in View(b).conds()}
+    if not pair or not tested:
+        run.info("F8: the hex scanner is not in the two-pending-characters form; the transition table is not applied to this form")
+        return
+    h, l = pair
+    alph = sorted(hex_alphabets(mod))
+    if len(alph) != 1:
+        raise AnalysisError(f"F8: hex alphabets of {mod.relpath}: {alph}")
+    A = alph[0]
+    # which pull a protected block makes: try@<line> -> the pending character it fills
+    pull_of = {}
+    for t_ in [n_ for n_ in walk_no_nested(fn) if isinstance(n_, ast.Try)]:
+        tg = {norm(a_.targets[0]) for a_ in ast.walk(t_) if isinstance(a_, ast.Assign) and "next(" in norm(a_.value) and a_ in list(ast.walk(ast.Module(body=t_.body, type_ignores=[])))}
+        if len(tg) == 1:
+            pull_of[f"try@{t_.lineno} raises StopIteration"] = tg.pop()
+    loopnode = next((n_ for n_ in walk_no_nested(fn) if isinstance(n_, ast.While)), None)
+    run.ob("F8", loopnode is not None and isinstance(loopnode.test, ast.Constant) and bool(loopnode.test.value),
+           "hex scanner: the scan loop runs until the input is exhausted", "the scan loop's test is no longer constant true: the scanner "
+           "stops (or never starts) independently of the input", module=mod, node=loopnode or fn, func=fn.name, construct="hex scan loop")
+    # initial state: both blank
+    for v in (h, l):
+        init = [a_ for a_ in fn.body if isinstance(a_, ast.Assign) and norm(a_.targets[0]) == v]
+        ok = len(init) == 1 and _blank_bytes(init[0].value)
+        run.ob("F8", ok, f"hex scanner: `{v}` starts blank", f"`{v}` is not initialised to a blank bytes constant before the loop",
+               module=mod, node=init[0] if init else fn, func=fn.name, construct=f"hex initial {v}")
+
+    def blank(b, v):
+        return _blank_bytes(b.env.get(v))
+
+    def pulled(b):
+        return {norm(e.targets[0]): paths.text(e.value) for k, e, _n in b.effects if k == "bind" and isinstance(e, ast.Assign) and "next(" in norm(e.value)}
+
+    n = 0
+    for b in body or []:
+        c = {a: v for a, v, _ in b.cond}
+        ys = [paths.text(e) for k, e, _n in b.effects if k in ("yield", "yieldfrom")]
+        eofs = [pull_of.get(a) for a, v in c.items() if a.startswith("try@") and v]
+        pl = pulled(b)
+        nxt = b.end in ("continue", "fall")
+        if eofs:
+            if eofs == [h]:
+                want, got = "ends silently", ("ends silently" if b.end == "return" and b.value is None and not ys else f"{b.end} {b.value_text()} after {ys}")
+            elif eofs == [l]:
+                want = "ValueError"
+                got = "ValueError" if b.end == "raise" and (call_name(b.value) or "") == "ValueError" and not ys else f"{b.end} {b.value_text()} after {ys}"
+            else:
+                raise AnalysisError(f"F8: end of input in an unknown pull on the path [{label(b)}]")
+        else:
+            hs, ls = c.get(f"{h}.strip()"), c.get(f"{l}.strip()")
+            if hs is False:
+                want = f"pull into {h}"
+            elif hs is True and ls is False:
+                want = f"pull into {l}"
+            elif hs is True and ls is True:
+                va, vb = c.get(f"{h} in {A}"), c.get(f"{l} in {A}")
+                want = f"emit int({h} + {l}, 16), both blank" if va is True and vb is True else "ValueError" if False in (va, vb) else "?"
+            else:
+                want = "?"
+            if want == "?":
+                run.ob("F8", False, f"hex scanner step [{label(b)}]", f"a step of the hex scanner [{label(b)}] is not decided by the two "
+                       f"blank tests and the two alphabet tests", module=mod, node=b.node or fn, func=fn.name, construct="hex scanner step")
+                n += 1
+                continue
+            if b.end == "raise":
+                got = "ValueError" if (call_name(b.value) or "") == "ValueError" and not ys else f"raise {b.value_text()} after {ys}"
+            elif ys:
+                got = f"emit {ys[0]}, both blank" if len(ys) == 1 and nxt and blank(b, h) and blank(b, l) and not pl else \
+                    f"emit {ys}, then {h}={paths.text(b.env[h]) if isinstance(b.env.get(h), ast.AST) else 'kept'}, " \
+                    f"{l}={paths.text(b.env[l]) if isinstance(b.env.get(l), ast.AST) else 'kept'}, {b.end}"
+            elif len(pl) == 1 and nxt and list(pl.values())[0].replace(" ", "") in ("bytes([next(buffer)])", "bytes((next(buffer),))") \
+                    and not [v for v in (h, l) if v in b.env and v not in pl]:
+                got = f"pull into {list(pl)[0]}"
+            else:
+                got = f"{b.end} with pulls {pl}"
+        n += 1
+        run.ob("F8", want == got, f"hex scanner step [{label(b)}]: {got[:50]}",
+               f"on the step [{label(b)}] the hex scanner does `{got}`; the text-to-bytes correspondence requires `{want}`",
+               module=mod, node=b.node or fn, func=fn.name, construct="hex scanner step")
+    run.require(n >= 7, f"F8: only {n} steps of the hex scanner found")
+
+
+def f9(run, project):
+    """the detector as a decision table over its path summaries: which format is announced (or which input is refused)
+    under which outcome of the three tests, and that the announcement is followed by the two look-ahead bytes and then the
+    rest of the input - however the branches are written"""
+    from .outcomes import View, label
+    am = project.module(AUTO)
+    det = am.function("detect_format_and_yield_buffer")
+    ps = paths.summarise(am, det)
+    atoms = {a for p in ps for a in View(p).conds()}
+    magic = sorted(a for a in atoms if " == b'" in a)
+    hexa = sorted(a for a in atoms if a.startswith("re.match(") or a.startswith("re.fullmatch("))
+    mode = sorted(a for a in atoms if a.startswith("truthy ") and a[7:] in [x.arg for x in det.args.args])
+    eof = sorted(a for a in atoms if a.startswith("try raises StopIteration"))
+    if not (len(magic) == 1 and len(hexa) == 1 and len(mode) == 1 and len(eof) == 1):
+        raise AnalysisError(f"F9: the detector's tests are not (magic, hex pattern, strictness, end of input): {sorted(atoms)}")
+    M, H, S_, E = magic[0], hexa[0], mode[0], eof[0]
+    rows = [({E: True}, "refused"), ({M: True}, "pcapng"), ({H: True, S_: False}, "hex"), ({H: True, S_: True}, "refused")]
+    srcs = set()
+    for p in ps:
+        for k, e, _ in p.effects:
+            if k in ("bind", "update") and isinstance(e, (ast.Assign, ast.AugAssign)) and "next(" in norm(e.value):
+                srcs.add(norm(e.target if isinstance(e, ast.AugAssign) else e.targets[0]))
+    n = 0
+    for p in ps:
+        want = paths.decide(rows, "binary", View(p, closed=(E,)))
+        ys = [(k, paths.text(e)) for k, e, _ in p.effects if k in ("yield", "yieldfrom")]
+        if p.end == "raise":
+            got = "refused" if not ys else f"raise after {ys}"
+        else:
+            first = ys[0] if ys else None
+            tail = ys[1:]
+            its = {norm(e.targets[0]) for k, e, _ in p.effects if k == "bind" and isinstance(e, ast.Assign) and call_name(e.value) == "iter"}
+            okt = len(tail) == 2 and tail[0] in {("yieldfrom", v) for v in srcs} and tail[1][0] == "yieldfrom" \
+                and (tail[1][1] in its or tail[1][1].startswith("iter("))
+            got = first[1].strip("'") if first and first[0] == "yield" and okt else f"{ys}"
+        n += 1
+        run.ob("F9", want == {got}, f"detector [{label(p)}]: {got[:40]}",
+               f"on the path [{label(p)}] the detector gives {got}; required: {' or '.join(sorted(want))} (announcement, then the two "
+               "look-ahead bytes, then the rest of the input)", module=am, node=p.node or det, func=det.name, construct="auto decision")
+    run.require(n >= 5, f"F9: only {n} detector paths")
 
 
 def _ancestors(node, stop):
